@@ -163,7 +163,8 @@ def parse_assumptions(out):
     for block in re.split(r"\nAxioms:\n", "\n" + out)[1:]:
         for line in block.split("\n"):
             m = re.match(r"^([A-Za-z_][\w.']*)\s*$", line) or re.match(r"^([A-Za-z_][\w.']*)\s*:", line)
-            if m and not line.startswith(" "):
+            # coqc diagnostics ("File "...", line …:" / "Warning: … [name,category]") are not axiom names
+            if m and not line.startswith(" ") and m.group(1) not in ("Warning", "File"):
                 axioms.add(m.group(1))
     return closed, axioms
 
